@@ -49,6 +49,7 @@ package cache
 //@   ensures [C01] !in(c.entries, key)
 //@   ensures [C12] forall k key :: k != keyid(key) ==> in(c.entries, k) == old(in(c.entries, k)) && c.entries[k] == old(c.entries[k])
 //@   ensures result == nil <==> old(in(c.entries, key))
+//@   ensures c.byteSize.val.v <= old(c.byteSize.val.v)
 
 //@ props C12 C01 C14 C15 C16
 //@ func MemoryCache.Delete
@@ -75,10 +76,12 @@ package cache
 // ("implements"); the janitor is verified against the contracts alone.
 //@ fnfield cacheFunctions.removeEntry(key CacheKey) (err error)
 //@   ghost holds shard
-//@   assigns cache. map_ atomic ghost:mapsum ghost:fsexists ghost:fssize ghost:fscontent
+//@   assigns cache. map_ atomic ghost:mapsum ghost:fsinode ghost:jsize ghost:jexp
+//@   ensures jsize <= old(jsize)
 
 //@ fnfield cacheFunctions.getCacheSize() (size int64)
 //@   pure
+//@   ensures size == jsize
 
 //@ fnfield cacheFunctions.getCacheLen() (n int)
 //@   pure
@@ -86,6 +89,7 @@ package cache
 
 //@ fnfield cacheFunctions.getLock(key CacheKey) (lock ptr)
 //@   pure
+//@   ghost result shardlock
 //@   ensures lock != nil
 
 // evict touches a backend only through the callbacks above (checked when evict
@@ -93,7 +97,7 @@ package cache
 //@ func cacheJanitor.evict
 //@   trusted
 //@   ghost callbacks-only
-//@   assigns cache. map_ atomic ghost:mapsum ghost:fsexists ghost:fssize ghost:fscontent
+//@   assigns cache. map_ atomic ghost:mapsum ghost:fsinode ghost:jsize ghost:jexp
 
 // ---------------------------------------------------------------- memory backend: store
 
@@ -203,7 +207,7 @@ package cache
 //@   requires specFileInv(c) && c.janitor != nil && c.maxCacheSize.val != nil && c.byteSize.val.v < 4611686018427387904
 //@   ensures [C12] specFileInv(c)
 //@   ensures [C01] result1 == nil ==> in(c.entriesMetadata, key) && fscontent(specFilePath(c, keyid(key))) == old(readall(data)) && c.entriesMetadata[key].Size == old(readlen(data)) && c.entriesMetadata[key].Expires == expires && result0 != nil && result0.Metadata == c.entriesMetadata[key] && handlecontent(result0.Data) == old(readall(data))
-//@   ensures [C01] forall i int :: old(fsinode(specFilePath(c, keyid(key)))) == i && i != 0 ==> icontent(i) == old(icontent(i)) && isize(i) == old(isize(i))
+//@   ensures [C01] forall h int :: old(allocated(h)) && old(handleinode(h)) != 0 ==> handleinode(h) == old(handleinode(h)) && icontent(handleinode(h)) == old(icontent(handleinode(h))) && isize(handleinode(h)) == old(isize(handleinode(h)))
 
 //@ props C12 C06 C14 C15 C16
 //@ func FileCache.UpdateMetadata
@@ -221,3 +225,90 @@ package cache
 //@   ensures specFileInv(c)
 //@   ensures err == nil <==> old(in(c.entriesMetadata, key))
 //@   ensures err == nil ==> meta == c.entriesMetadata[key]
+
+// ---------------------------------------------------------------- janitor
+
+// What the janitor's iterator yields: a key together with the metadata record
+// currently stored for it.  jexp(key) is the ghost "current expiry of key's
+// entry"; it is forgotten whenever a shard lock is acquired, because another
+// request may have replaced the entry in the meantime.
+//@ fnfield cacheFunctions.cacheIterator() (key CacheKey, meta ptr)
+//@   ensures meta != nil && allocated(meta) && meta.Size >= 0 && meta.Expires == jexp(key)
+
+//@ lock cacheJanitor.none level 9
+
+// evict(max): removes candidates in order of decreasing priority while the size
+// is above 80% of max; it stops as soon as the target is reached, never blocks
+// on a shard lock (TryLock only) and touches the backend through callbacks only.
+//@ props C13 C14 C15 C16
+//@ func cacheJanitor.evict
+//@   nopanic
+//@   ghost callbacks-only
+//@   ghost callsite-requires removeEntry jsize > targetSize
+//@   assigns cache. map_ atomic ghost:mapsum ghost:fsinode ghost:jexp ghost:jsize
+//@   ensures [C13] jsize <= old(jsize)
+//@   ensures [C13] old(jsize) * 5 <= maxCacheBytes * 4 && maxCacheBytes >= 0 && maxCacheBytes <= 1125899906842624 ==> jsize == old(jsize)
+//@   loop 1 invariant forall i int :: 0 <= i && i < len(candidates) ==> candidates[i].meta != nil && allocated(candidates[i].meta)
+//@   loop 1 invariant jsize == old(jsize)
+//@   loop 2 invariant rangeidx <= len(candidates) && jsize <= old(jsize)
+//@   loop 2 invariant forall i int :: 0 <= i && i < len(candidates) ==> candidates[i].meta != nil && allocated(candidates[i].meta)
+//@   loop 2 invariant maxCacheBytes >= 0 && maxCacheBytes <= 1125899906842624 ==> targetSize == (maxCacheBytes * 4) / 5
+//@   loop 2 invariant old(jsize) * 5 <= maxCacheBytes * 4 && maxCacheBytes >= 0 && maxCacheBytes <= 1125899906842624 ==> jsize == old(jsize)
+
+// The comparator handed to slices.SortFunc orders by decreasing priority.
+//@ props C13
+//@ func cacheJanitor.evict$1
+//@   nopanic
+//@   pure
+//@   ensures [C13] (result < 0 <==> x.priority > y.priority) && (result == 0 <==> x.priority == y.priority)
+
+// Below the limit nothing is evicted.
+//@ props C13 C14 C16
+//@ func cacheJanitor.ensureCacheSize
+//@   nopanic
+//@   requires j.cfg != nil && aset(j.cfg.Cache.MaxCacheSize.value)
+//@   ghost callsite-requires getCacheSize true
+
+// Each cleanup cycle removes exactly the expired entries: a key is handed to
+// removeEntry only if the entry stored for it NOW (under its shard lock) is expired.
+//@ props C13 C14 C15 C16
+//@ func cacheJanitor.cleanExpiredEntries
+//@   nopanic
+//@   ghost callsite-requires removeEntry jexp(arg_key) < now
+//@   loop 1 invariant len(keysToRemove) >= 0
+//@   loop 2 invariant rangeidx <= len(keysToRemove)
+
+// ---------------------------------------------------------------- constructors and the closures they install
+
+// The closures a backend hands to its janitor implement the callback contracts
+// and keep the backend's invariant (premise of the callback rule).
+//@ props C12 C13 C14 C15 C16
+//@ func NewMemoryCache$4
+//@   implements cacheFunctions.removeEntry
+//@   nopanic
+//@   requires specMemInv(c) && c.byteSize.val.v < 4611686018427387904
+//@   ensures [C12] specMemInv(c) && c.byteSize.val.v <= old(c.byteSize.val.v)
+
+//@ props C12 C13 C14 C15 C16
+//@ func NewFileCache$5
+//@   implements cacheFunctions.removeEntry
+//@   nopanic
+//@   requires specFileInv(c) && c.byteSize.val.v < 4611686018427387904
+//@   ensures [C12] specFileInv(c) && c.byteSize.val.v <= old(c.byteSize.val.v)
+
+//@ props C12 C16
+//@ func NewMemoryCache$5
+//@   nopanic
+//@   requires c.byteSize.val != nil
+//@   ensures result == c.byteSize.val.v
+
+//@ props C12 C16
+//@ func NewFileCache$3
+//@   nopanic
+//@   requires c.byteSize.val != nil
+//@   ensures result == c.byteSize.val.v
+
+// stop never blocks: it takes no lock and performs no channel send or receive.
+//@ props C14 C16
+//@ func cacheJanitor.stop
+//@   nopanic
